@@ -24,6 +24,9 @@ SpecStep(e) ==
                           THEN [tab |-> [tab EXCEPT ![e.t] = Upd(tab[e.t], e.sub, e.k)],
                                 ret |-> [completed |-> CompletedFlag(e.sub), status |-> Upd(tab[e.t], e.sub, e.k)]]
                           ELSE [tab |-> tab, ret |-> [none |-> TRUE]]
+    \* a report whose request ID differs from a registered telecommand's only in bits the tracker must not ignore
+    \* (CCSDS version, packet type, secondary header flag, sequence flags): unknown - no result, no effect
+    [] e.op = "ghost_tm" -> [tab |-> tab, ret |-> [none |-> TRUE]]
     [] e.op = "remove_entry" -> [tab |-> [tab EXCEPT ![e.t] = Absent], ret |-> Known(e.t)]
     [] e.op = "remove_completed" -> [tab |-> [t \in TCs |-> IF Known(t) /\ tab[t].all THEN Absent ELSE tab[t]],
                                      ret |-> "none"]
